@@ -36,8 +36,11 @@ pub fn run(args: &Args) -> i32 {
     let run = Run::new(args, "model_checking");
     // (universe, depth, rewinds, wall cap, segment-level alphabet first?) — see c01.rs `params`
     let plan: Vec<(&str, usize, u32, f64, bool)> = match args.tier {
-        Tier::Quick => vec![("tiny-trees", 8, 1, 26.0, true), ("tiny-trees", 12, 1, 20.0, false)],
-        Tier::Thorough => vec![("tiny-trees", 14, 2, 200.0, true), ("tiny-trees", 14, 2, 200.0, false), ("small", 12, 1, 300.0, false), ("mid", 8, 1, 400.0, false)],
+        // segment-level (deep) search on `tiny` - cheap states, so it gets to depth 4-5 (orders of
+        // Roots / scans / rewind / other-branch scans) - and the free-scan search on `tiny-trees`, whose
+        // whole-chain and stretch scans are what the idle-pool and batch-interior symbols need
+        Tier::Quick => vec![("tiny", 8, 1, 26.0, true), ("tiny-trees", 12, 1, 20.0, false)],
+        Tier::Thorough => vec![("tiny", 14, 2, 150.0, true), ("tiny-trees", 14, 2, 200.0, true), ("tiny-trees", 14, 2, 200.0, false), ("small", 12, 1, 300.0, false), ("mid", 8, 1, 400.0, false)],
     };
     run.set_rule(
         "explicit-state BFS over the real SQLite wallet (operations Scan, Tip, Rewind+switch branch, PutSubtreeRoots), states matched on a canonical \
